@@ -27,7 +27,8 @@ func StateSetByte(state *[25]uint64, b byte, offset int) {
 	lane := offset / 8
 	offsetInLane := offset % 8
 	shift := 8 * offsetInLane
-	state[lane] = uint64(b) << shift
+	// Replace only this byte: the other seven bytes of the lane stay.
+	state[lane] = state[lane]&^(uint64(0xFF)<<shift) | uint64(b)<<shift
 }
 
 // StateAddBytes adds the first up to 200 bytes of b to state.
